@@ -185,6 +185,7 @@ def coreNeutral : Op → Bool
   | .makeMemo _ => true
   | .readMemo _ => true
   | .childOwner _ => true
+  | .tick => true
   | _ => false
 
 theorem AbsCore.neutral {s s' : State} {h : Hist} (a : AbsCore s h) (op : Op) (hn : coreNeutral op = true)
@@ -514,5 +515,8 @@ theorem step_refines {s : State} {h : Hist} (a : Abs s h) (op : Op) :
     · have hlt' : ¬ p < s.owners.length := by rw [ao.len]; exact hlt
       simp only [step, obsAt, hlt, hlt', if_false, if_true, true_and]
       exact ⟨ac, am, ao⟩
+  | tick =>
+    simp only [step, obsAt, reduceCtorEq, if_false, true_and]
+    exact ⟨ac.neutral _ rfl rfl rfl rfl, am.neutral _ rfl, ao.neutral _ rfl⟩
 
 end I18nVerif.Context
